@@ -281,7 +281,13 @@ Definition run_case_full (e : ecase) : list (N * kind) :=
    | RErr, _ => [(root_shape (e_payload e), KErrMissing)]
    | _, ObErr => [(root_shape (e_payload e), KErrSpurious)]
    | RConsumed, _ | _, ObConsumed => [(0%N, KConsumed)]
-   | _, ObSame => [(0%N, KSame)]
+   | ROut m, ObSame =>
+       (* the very event came back although the model forwards a filtered copy: not "the same event is due" (C10) only - whatever the
+          model protects left in plaintext (C09) *)
+       (0%N, KSame) :: (match e_payload e with
+                        | PVal _ x => if forallb (fun c => N.eqb c 0 || memN c (canaries m)) (canaries x) then [] else [(root_shape (e_payload e), KLeak)]
+                        | _ => []
+                        end)
    end)
   ++ (if e_unchanged e then [] else [(0%N, KMutated)])
   ++ (match e_payload e, e_obs e with
